@@ -12,6 +12,7 @@ ALPHABETS = [
     ["a", "b", "�", "\n"],
     ["a", "\ud7ff", "\ue000", "\uf8ff", "\u0080", "\ufffd"],      # around the surrogate gap and the private-use area
     ["\x7f", "\u0080", "\u07ff", "\u0800", "\uffff", "\U00010000", "a"],   # UTF-8 length boundaries
+    ["a", "\u0161", "b", "\u0261", "\U00010061"],                        # equal modulo 256 / 65536 (narrowing conversions)
 ]
 
 # code points at which encodings, tables or printing verbs change behaviour: range bounds are drawn from here now and then
@@ -166,8 +167,8 @@ def strip_nullable_bodies(p, defs):
     return out
 
 
-def gen_lex_grammar(rng, safe_regdefs=True, nullable_bodies=False, max_tokens=6):
-    alpha = list(rng.choice(ALPHABETS))
+def gen_lex_grammar(rng, safe_regdefs=True, nullable_bodies=False, max_tokens=6, alpha=None):
+    alpha = list(alpha) if alpha is not None else list(rng.choice(ALPHABETS))
     allow_dot = rng.random() < 0.35
     prods = []
     regdefs = []
